@@ -77,6 +77,26 @@ def gen_program(r, big=False):
             t += r.choice([0, 0, 1, 100, 1500, 6000, 25000])
     if r.random() < 0.08:
         lines.append("at %d rerror" % r.choice([100, 3000, 30000]))
+    elif r.random() < 0.12:
+        # the peer closes: mostly in the middle of a response body (the header and a part of the body arrive, then EOF)
+        big = [x for x in resps if x[2] > 1]
+        if big and r.random() < 0.75:
+            x = r.choice(big)
+            mine = [l for l in lines if l.startswith("at ") and (" deliver %s " % x[0]) in l]
+            t0 = int(mine[0].split()[1])
+            i0 = lines.index(mine[0])
+            later = [l for l in lines[i0:] if l.startswith("at ") and " deliver " in l]
+            for l in later:
+                lines.remove(l)
+            part = HDR + r.randint(1, x[2] - 1)
+            if r.random() < 0.5:
+                lines.append("at %d deliver %s 0 %d" % (t0, x[0], part))
+            else:
+                lines.append("at %d deliver %s 0 %d" % (t0, x[0], HDR))
+                lines.append("at %d deliver %s %d %d" % (t0 + r.choice([0, 100, 3000]), x[0], HDR, part - HDR))
+            lines.append("at %d eof" % (t0 + r.choice([3000, 3000, 20000, 100000])))
+        else:
+            lines.append("at %d eof" % r.choice([100, 3000, 30000]))
     if r.random() < 0.1:
         lines.append("wfail %d" % r.randint(1, max(1, k)))
     if r.random() < 0.15:
